@@ -27,7 +27,7 @@ class Inst:
                  tier='quick', pre='', loop_contracts=None, nondet_volatile=False, solvers=('minisat',),
                  timeout=120, unwind=None, extra_cbmc=(), also_enforce=(), note='', kind='proof',
                  replay=None, expect_compile_error=False, opts=None, defines=(), root_pick=None,
-                 canary=True, object_bits=None, globals_init=None, extra_replace=(), pre_defines='', ret='void', may_not_compile=False):
+                 canary=True, object_bits=None, globals_init=None, extra_replace=(), pre_defines='', ret='void', may_not_compile=False, facts=None):
         self.name = name
         self.params = params          # C++ parameter list of the snippet
         self.expr = expr              # C++ statement(s) using the operation under contract
@@ -54,6 +54,7 @@ class Inst:
         self.canary = canary
         self.object_bits = object_bits
         self.globals_init = globals_init
+        self.facts = facts or {}                  # macro -> (C++ constant expression, C type): computed by g++ (B-facts)
         self.may_not_compile = may_not_compile   # the property quantifies over programs that compile; a rejected snippet is then no instance
         self.ret = ret                            # return type of the snippet function (lemma clients return a value)
         self.pre_defines = pre_defines            # C text emitted before the spec headers are included
@@ -340,12 +341,13 @@ class Unit:
                 out.append('_Static_assert(sizeof(struct %s) == %s, "layout of %s differs from g++");' % (cn, key, cn))
         for k, v in em.facts.items():
             facts.setdefault(k, v)
+        for k, v in it.facts.items():
+            facts.setdefault(k, v)
         if 'V_BASE' not in gl:
             out.append('unsigned long v_region_base_unused[2]; unsigned long v_region_size_unused[2];')
         for g, (decl, d) in em.globals_used.items():
             out.append(decl + ';')
-        for cname in em.extern_funcs:
-            pass  # declared in prelude / spec text
+        model_calls = [c for c in em.extern_funcs if c in ('vec_find', 'vec_erase_range')]
         # prototypes
         protos = []
         leaf_names = []
@@ -396,7 +398,7 @@ class Unit:
             'leaves': leaf_names, 'leaf_keys': [k for _, (f, k) in em.leaves.items()],
             'inlined': [tu.funcs[fid].get('name') for fid in order if fid != root['id']],
             'lowerings': dict(em.lowerings), 'has_loops': bool(getattr(em, 'loop_ordinal', {})),
-            'n_functions': len(order), 'sites': sites,
+            'n_functions': len(order), 'sites': sites, 'model_calls': model_calls,
             'ensures_tags': clause_tags(it.contract, 'ensures'), 'leaf_requires_tags': leaf_req,
         }
 
@@ -437,7 +439,7 @@ class Unit:
     # ---------------------------------------------------------------- verification
     def verify_inst(self, it):
         info = self.emitted[it.name]
-        res = cbmc.verify(info['cfile'], self.dir, 'harness', [info['root']] + list(it.also_enforce), replace=info['leaves'] + list(it.extra_replace),
+        res = cbmc.verify(info['cfile'], self.dir, 'harness', [info['root']] + list(it.also_enforce), replace=info['leaves'] + list(it.extra_replace) + list(info.get('model_calls', [])),
                           loop_contracts=bool(it.loop_contracts), nondet_volatile=it.nondet_volatile,
                           includes=[os.path.join(VERIF, 'include'), self.dir], solvers=it.solvers, timeout=it.timeout,
                           unwind=it.unwind, extra_cbmc=it.extra_cbmc, object_bits=it.object_bits)
@@ -452,7 +454,7 @@ class Unit:
             cdir = os.path.join(self.dir, 'canary_' + it.name)
             os.makedirs(cdir, exist_ok=True)
             r2 = cbmc.verify(info['cfile'], cdir, 'harness', [info['root']] + list(it.also_enforce),
-                             replace=info['leaves'] + list(it.extra_replace), loop_contracts=bool(it.loop_contracts), nondet_volatile=it.nondet_volatile,
+                             replace=info['leaves'] + list(it.extra_replace) + list(info.get('model_calls', [])), loop_contracts=bool(it.loop_contracts), nondet_volatile=it.nondet_volatile,
                              includes=[os.path.join(VERIF, 'include'), self.dir], defines=['CANARY'], solvers=it.solvers,
                              timeout=it.timeout, unwind=it.unwind, extra_cbmc=list(it.extra_cbmc) + ['--stop-on-fail'], trace=False,
                              object_bits=it.object_bits, stop_on_fail=True)
